@@ -134,6 +134,7 @@ theorem zipOne_nodes (fs : FS) (root : P) (mask : Nat) (e : Entry) (r : FS × Bo
     rename_i fs1 h1
     subst h
     exact mkdirAll_nodes _ _ _ _ h1 q n hq
+  · subst h; exact Or.inl hq
   · split at h
     · subst h; exact Or.inl hq
     rename_i fs1 h1
